@@ -201,7 +201,7 @@ func (w *W) RunProbe(pkgs []GenPkg, sessions []ProbeSession, stubTag bool) ([][]
 	timedOut := false
 	select {
 	case werr = <-done:
-	case <-time.After(90 * time.Second):
+	case <-time.After(300 * time.Second):
 		run.Process.Kill()
 		<-done
 		timedOut = true
@@ -217,7 +217,7 @@ func (w *W) RunProbe(pkgs []GenPkg, sessions []ProbeSession, stubTag bool) ([][]
 		res = append(res, r)
 	}
 	if timedOut {
-		return res, &ProbeError{"hang", fmt.Sprintf("probe did not finish within 90s; %d of %d sessions completed\n%s", len(res), len(sessions), tail(stderr.String(), 4000))}
+		return res, &ProbeError{"hang", fmt.Sprintf("probe did not finish within 300s; %d of %d sessions completed\n%s", len(res), len(sessions), tail(stderr.String(), 4000))}
 	}
 	if werr != nil || len(res) != len(sessions) {
 		return res, &ProbeError{"run", fmt.Sprintf("probe exited abnormally (%v) after %d of %d sessions\n%s", werr, len(res), len(sessions), tail(stderr.String(), 6000))}
